@@ -134,16 +134,19 @@ Example C02_ex_discriminating :
    end) = false.
 Proof. vm_compute. repeat split; reflexivity. Qed.
 
-(* (e) UNBOUNDED: bracket-free operator expressions of any length.  For every token
-   list over value tokens, prefix operators (9 tokens), suffix operators (4), binary
-   operators (38) and whitespace that has the shape of an expression
-   ([operator_expression]: operand := prefix* value suffix*; operands joined by binary
-   operators or, across whitespace, by the implicit space list; whitespace allowed
-   between any two tokens; no leading/trailing whitespace) parse accepts and returns
-   exactly the tree the pinned table dictates: prefix operators group right-to-left and
-   take the operand built under their own rank, suffix operators close what binds
-   tighter, the implicit list sits at its table position (220) and is NOT created around
-   a binary operator written with spaces.  This subsumes (d). *)
+(* (e) UNBOUNDED: operator expressions of any length, with brackets nested to any depth.
+   For every token list over value tokens (9), prefix operators (9 tokens), suffix
+   operators (4), binary operators (38), round brackets and whitespace that has the shape
+   of an expression ([operator_expression]: operand := prefix* (value | "(" expr ")")
+   suffix*; operands joined by binary operators or, across whitespace, by the implicit
+   space list; whitespace allowed between any two tokens, also just inside brackets; no
+   leading/trailing whitespace) parse accepts and returns exactly the tree the pinned
+   table dictates: prefix operators group right-to-left and take the operand built under
+   their own rank, suffix operators close what binds tighter, the implicit list sits at
+   its table position (220) and is NOT created around a binary operator written with
+   spaces, and brackets override precedence and associativity (an open bracket is never
+   closed by an operator; the closing bracket closes everything opened inside).
+   This subsumes (d). *)
 Theorem C02_operator_expressions : forall toks : list token_type,
   operator_expression toks = true -> c02_agree toks = true.
 Proof. exact c02_operator_expressions. Qed.
@@ -182,11 +185,41 @@ Example C02_ex_expression_rejects :
   operator_expression [TT_Number; TT_PlusSign] = false /\
   operator_expression [TT_Number; TT_Whitespace] = false /\
   operator_expression [TT_Number; TT_Opposite; TT_Number] = false /\
-  operator_expression [TT_Number; TT_Whitespace; TT_Opposite; TT_Number] = true /\
-  operator_expression [TT_StartGroup; TT_Number; TT_EndGroup] = false.
+  operator_expression [TT_Number; TT_Whitespace; TT_Opposite; TT_Number] = true.
 Proof. vm_compute. repeat split; reflexivity. Qed.
 
-(* (f) what is still not proved without a bound: brackets (groups, nested expressions,
-   side effects), separators and annotations, and the claim for token lists that are not
-   expressions; C02_full_statement above stays stated.  For those the bounded theorems
-   (b) remain the evidence. *)
+(*   (a + b) * -(c = (d e))~~ (1)     brackets nested three deep, whitespace inside *)
+Definition C02_sample_bracketed : list token_type :=
+  [TT_StartGroup; TT_Identifier; TT_Whitespace; TT_PlusSign; TT_Whitespace; TT_Identifier; TT_EndGroup;
+   TT_MultiplicationSign; TT_Opposite; TT_StartGroup; TT_Identifier; TT_Pair; TT_StartGroup; TT_Identifier;
+   TT_Whitespace; TT_Identifier; TT_EndGroup; TT_EndGroup; TT_EmptyApply;
+   TT_Whitespace; TT_StartGroup; TT_Number; TT_EndGroup].
+
+Example C02_ex_bracketed_hypothesis : operator_expression C02_sample_bracketed = true.
+Proof. vm_compute. reflexivity. Qed.
+
+Example C02_ex_bracketed_tree :
+  pratt C02_sample_bracketed =
+  Some (RBin D_List None
+          (RBin D_MultiplicationSign (Some 7)
+             (RGroup 0 (RBin D_Addition (Some 3) (RAtom D_Identifier 1) (RAtom D_Identifier 5)))
+             (RPre D_Opposite 8
+                (RSuf D_EmptyApply 18
+                   (RGroup 9
+                      (RBin D_Pair (Some 11) (RAtom D_Identifier 10)
+                         (RGroup 12 (RBin D_List None (RAtom D_Identifier 13) (RAtom D_Identifier 15))))))))
+          (RGroup 20 (RAtom D_Number 21))).
+Proof. vm_compute. reflexivity. Qed.
+
+Example C02_ex_bracketed_rejects :
+  operator_expression [TT_StartGroup; TT_Number] = false /\
+  operator_expression [TT_Number; TT_EndGroup] = false /\
+  operator_expression [TT_StartGroup; TT_EndGroup] = false /\
+  operator_expression [TT_Number; TT_StartGroup; TT_Number; TT_EndGroup] = false /\
+  operator_expression [TT_StartGroup; TT_Number; TT_EndGroup] = true.
+Proof. vm_compute. repeat split; reflexivity. Qed.
+
+(* (f) what is still not proved without a bound: nested expressions { } and side effects
+   [ ], separators, annotations, leading/trailing whitespace, and the claim for token lists
+   that are not expressions (there the reference is undefined and c02_agree holds
+   trivially, but that is not proved here); C02_full_statement above stays stated. *)
